@@ -16,10 +16,13 @@ def one(args):
     commit, subject = args
     rev = subprocess.run(['git', '-C', '/repo', 'diff', commit, commit + '~1', '--', 'segno'], capture_output=True, text=True).stdout
     base = src.Forest.load()
+    skipped = []
     try:
-        srcs = mut.apply_patch_text(base.sources, rev)
+        srcs = mut.apply_patch_text(base.sources, rev, skip_failing=True, skipped=skipped)
     except Exception as ex:
         return commit, subject, None, f'reverse patch does not apply in memory: {ex}'
+    if all(srcs[m] == base.sources[m] for m in srcs):
+        return commit, subject, None, f'no hunk of the reverse patch applies any more: {skipped}'
     f = base
     for m, text in srcs.items():
         f = f.with_source(m, text)
@@ -31,7 +34,7 @@ def one(args):
             for o in rr.obs:
                 if not o.ok and not any(core.finding_matches(e, o) for e in known):
                     fired.setdefault(o.rule, o.key[:80])
-    return commit, subject, fired, ''
+    return commit, subject, fired, (f'partially reverted (later fixes touch the same lines): skipped {skipped}' if skipped else '')
 
 
 def main():
